@@ -1,4 +1,5 @@
 import PasetoModel.PaserkInst
+import PasetoModel.SpecHeaders
 /-! # C07 — PASERK wraps, seals and password-wraps are bit-exact per spec and interoperate -/
 namespace PM.C07
 
@@ -77,6 +78,9 @@ theorem pbkw_siblings_v4 (pass salt params : Bytes)
   rw [if_neg (by omega)]
   simp only [ne_eq, not_true_eq_false, if_false]
   rw [if_neg (by omega)]
+
+/-- the PASERK header strings the running code uses (regenerated on every run) are the PASERK documents' -/
+theorem paserk_headers_are_spec : Spec.PaserkHeadersConform := by decide
 
 /-! non-vacuity -/
 example : Conforms specCfg := by decide
